@@ -1,7 +1,7 @@
 (* C18 - Gossip is bounded, processed once per agent and never self-addressed.
    Statements only; proofs are `exact` lemmas of Gossip/GossipProofs.v and Gossip/GossipView.v. *)
 From Coq Require Import ZArith.
-From QV Require Import Base.Util Gossip.Gossip Gossip.GossipProofs Gossip.GossipView.
+From QV Require Import Base.Util Gossip.Gossip Gossip.GossipProofs Gossip.GossipView Gossip.GossipTasks.
 
 (* (1) every hop strictly lowers the TTL; a message whose TTL is exhausted (zero OR negative) is not sent on *)
 Theorem C18_hop_lowers_ttl ttl t : send_ttl ttl = Some t -> (0 <= t < ttl)%Z.
@@ -59,6 +59,19 @@ Proof.
   cbn zeta. split; [apply C18_view_update, C18_view_update, C18_view_update; intros ? ? []|]. repeat split; reflexivity.
 Qed.
 
+(* several task factories and a task manager that may refuse tasks: whatever arrives and whatever is refused, each factory
+   creates at most one task per batch (the batch is marked before the tasks are created) *)
+Theorem C18_tasks_at_most_once_whatever_the_task_manager_refuses (nf : nat) (cache ds : list N) :
+  NoDup (process_tm nf cache 0 ds).
+Proof. exact (tasks_at_most_once nf cache ds). Qed.
+
+(* marking the batch only after every task was accepted (seeded change C18-10) is refuted: two factories, the second one's
+   task refused, the batch delivered twice - the first factory's task is created twice *)
+Theorem C18_mark_after_accept_refuted :
+  process_late 2 (fun _ k _ => Nat.eqb k 0) [] 0 [7; 7]%N = [(7%N, 0%nat); (7%N, 1%nat); (7%N, 0%nat); (7%N, 1%nat)] /\
+  process_tm 2 [] 0 [7; 7]%N = [(7%N, 0%nat); (7%N, 1%nat)].
+Proof. exact process_late_runs_a_task_twice. Qed.
+
 Print Assumptions C18_dissemination_bounded.
 Print Assumptions C18_never_self_addressed.
 Print Assumptions C18_processed_at_most_once.
@@ -67,3 +80,5 @@ Print Assumptions C18_view_update.
 Print Assumptions C18_view_delete.
 Print Assumptions C18_view_is_the_set_of_joined_peers.
 Print Assumptions C18_view_consistent_from_any_view.
+Print Assumptions C18_tasks_at_most_once_whatever_the_task_manager_refuses.
+Print Assumptions C18_mark_after_accept_refuted.
